@@ -34,6 +34,7 @@ EDGE = [
     "template<class T> struct A { typename T::x y; }; A<int> a;\n", "template<int N> struct F { enum { v = N * F<N-1>::v }; }; int x = F<5>::v;\n", "template<class T> struct A : A<T*> {}; A<int> a;\n",
     "template<class... T> struct V { V<T..., int> *n; }; V<> v;\n", "template<int N> struct F { enum { v = F<N-1>::v }; static const int x = F<5>::v; };\n",
     "template<int N> struct F { enum { v = N * F<N-1>::v }; int x = F<5>::v; };\n", "template<class T> struct G { typedef typename G<T*>::t t; t x; };\nG<int>::t y;\n", "struct A { A a; };\n", "struct A; struct B { A a; };\n", "typedef struct A A; struct A { A *a; };\n", "enum class E : E {};\n", "int x = x;\n", "int x = sizeof(x)/0;\n",
+    "#define FIRST(a, b) a\n#if FIRST(1'0, 5) == 10\n#endif\n", "#define PAIR(a, b) [a + b]\np1 = PAIR(1'000, 2) ;\n", "#define F(a) a\n#if F(')\n#endif\n", "#if 0x == 0x'\n#endif\n",
     "void attach(struct nett::Socket *sock);\n", "struct a::b::C *p;\n", "int x = sizeof(struct q::R *);\n", "template<class T> struct X {}; X<struct zz::Y> v;\n", "enum ee::E f();\n",
     "class ::nope::K *g;\n", "union u::V w(struct s::T);\n", "typedef struct t::U U2;\n", "struct S { struct S::in::X *p; };\n", "void f(enum class m::E e);\n",
     "#pragma push_macro(\"X\")\n#pragma pop_macro(\"X\")\n#pragma pop_macro(\"X\")\nint a = X;\n", "#define X 1\n#pragma push_macro(\"X\")\n#undef X\n#pragma pop_macro(\"X\")\n#pragma pop_macro(\"X\")\nint a = X;\n#if X\n#endif\n",
